@@ -110,6 +110,12 @@ def _is_lazy_fill(q: str, ef: Effect) -> bool:
     `not hasattr(self, that attribute)`"""
     name = q.rsplit(".", 1)[1]
     attr = LAZY_GETTERS.get(name)
+    if attr is None and ef.kind.startswith("setattr:_") and \
+            ef.kind[8:] not in LAZY_GETTERS.values():
+        # a private memo of a derived quantity, filled when absent like the
+        # lazily materialised views (that it is dropped whenever the state
+        # it was computed from is rebound is C08.7's cache protocol)
+        attr = ef.kind[8:]
     if attr is None or ef.kind != "setattr:" + attr:
         return False
     guard = tm.call(tm.glob("builtins.hasattr"),
